@@ -1,5 +1,6 @@
 (* C16 -- Filters select exactly the documented set.  Only property theorems here. *)
 From Coq Require Import NArith List Bool.
+From SyGen Require SizeFilter.
 From SyModel Require Import Filter.
 From SyProofs Require Import Filter_proofs.
 Import ListNotations.
@@ -64,6 +65,34 @@ Theorem C16_engine_select : forall rules mn mx l e,
   (In e (engine_select rules mn mx l) <-> In e l /\ selected rules mn mx e).
 Proof. exact engine_select_spec. Qed.
 Print Assumptions C16_engine_select.
+
+(* the size clause against the SOURCE: `SizeFilter.should_filter_by_size` is translated from the current body of
+   `SyncEngine::should_filter_by_size` on every run (py/gen_sizefilter.py); it is the model's `size_filtered`, used by
+   `engine_select` above, for every pair of bounds and every size ... *)
+Theorem C16_size_filter_is_the_source : forall mn mx sz,
+  SizeFilter.should_filter_by_size mn mx sz = size_filtered mn mx sz.
+Proof.
+  intros mn mx sz. unfold SizeFilter.should_filter_by_size, SizeFilter.size_stmt_0, SizeFilter.size_stmt_1, size_filtered.
+  destruct mn as [m1|]; destruct mx as [m2|]; cbn [orb]; rewrite ?orb_false_r; reflexivity.
+Qed.
+Print Assumptions C16_size_filter_is_the_source.
+(* ... and both bounds are inclusive: a file passes exactly when min <= size <= max for the bounds that are given *)
+Theorem C16_size_bounds_inclusive : forall mn mx sz,
+  SizeFilter.should_filter_by_size mn mx sz = false <->
+  (forall m, mn = Some m -> (m <= sz)%N) /\ (forall m, mx = Some m -> (sz <= m)%N).
+Proof.
+  intros mn mx sz. unfold SizeFilter.should_filter_by_size, SizeFilter.size_stmt_0, SizeFilter.size_stmt_1.
+  rewrite !orb_false_iff. split.
+  - intros [[H1 H2] _]. split; intros m E; subst.
+    + apply N.ltb_ge in H1. exact H1.
+    + apply N.ltb_ge in H2. exact H2.
+  - intros [H1 H2]. repeat split.
+    + destruct mn as [m|]; [apply N.ltb_ge; apply H1; reflexivity | reflexivity].
+    + destruct mx as [m|]; [apply N.ltb_ge; apply H2; reflexivity | reflexivity].
+Qed.
+Print Assumptions C16_size_bounds_inclusive.
+Example ex_size_bounds : map (SizeFilter.should_filter_by_size (Some 10%N) (Some 20%N)) [9; 10; 15; 20; 21]%N = [true; false; false; false; true].
+Proof. vm_compute. reflexivity. Qed.
 
 (* the hypothesis is decidable; the harness evaluates listing_ok on every real scan *)
 Theorem C16_listing_ok_sound : forall l, listing_ok l = true -> listing_wf l.
